@@ -144,6 +144,7 @@ def base_axioms():
     for s in _sentinels.values():
         ax += [is_sentinel(s), Alloc0(s), truthy(s)]
     ax += [is_bool(TRUE), is_bool(FALSE), truthy(TRUE), z3.Not(truthy(FALSE)), z3.Not(truthy(NONE))]
+    ax.append(z3.ForAll([v], z3.Implies(is_bool(v), z3.Or(v == TRUE, v == FALSE)), patterns=[is_bool(v)]))
     ax += [Alloc0(NONE), Alloc0(TRUE), Alloc0(FALSE)]
     # kinds are mutually exclusive
     kinds = [is_str, is_int, is_bool, is_list, is_tuple, is_dict, is_set, is_sentinel, is_exc]
@@ -252,3 +253,13 @@ def heap_wellformed_ref(h: Heap, ref, kind: str):
         z3.ForAll([k], z3.Implies(has[k], size > 0)),
         z3.Implies(size > 0, z3.Exists([k], has[k])),
     ]
+
+
+def forall(vs, body, patterns=None):
+    """ForAll with explicit patterns when they are valid patterns (no ite etc.), else solver-chosen patterns."""
+    if patterns:
+        try:
+            return z3.ForAll(vs, body, patterns=patterns)
+        except z3.Z3Exception:
+            pass
+    return z3.ForAll(vs, body)
